@@ -23,6 +23,7 @@ func GetEncoder() *Encoder {
 }
 
 func FreeEncoder(encoder *Encoder) {
+	encoder.Writer = nil
 	encoderPool.Put(encoder.Simple(false).ResetBuffer())
 }
 
